@@ -469,19 +469,33 @@ def fam_simple(case):
             for p in perms:
                 p = list(p)
                 tag = 'nat=%s,edge=%s' % ('sorted' if p == sorted(p) else 'shuffled', bool(case['edge']))
-                for dim in (1, 2):
-                    sb = SimpleBinner(tc.copy(), None if tw_arg is None else tw_arg.copy())
+                for dim, tdir in ((1, 'asc'), (2, 'asc'), (1, 'desc'), (2, 'desc')):
+                    # desc: the same target bins listed from high to low wavenumber (an ascending wavelength grid);
+                    # the answer, turned round, is judged exactly like the ascending one
+                    if tdir == 'desc' and p != sorted(p):
+                        continue
+                    rev = slice(None, None, -1) if tdir == 'desc' else slice(None)
+                    sb = SimpleBinner(tc[rev].copy(), None if tw_arg is None else tw_arg[rev].copy())
                     s = S[:, p] if dim == 2 else S[names.index('g1')][p]
                     l_, h_ = (lo, hi) if dim == 2 else (lo[names.index('g1')], hi[names.index('g1')])
+                    tag = 'nat=%s,edge=%s%s' % ('sorted' if p == sorted(p) else 'shuffled', bool(case['edge']),
+                                                ',target=descending' if tdir == 'desc' else '')
                     try:
                         out = sb.bindown(c[p].copy(), s.copy())
                     except Exception as ex:
+                        if tdir == 'desc' and isinstance(ex, ValueError):
+                            r.count('simple-descending-target-refused', 1)      # a refusal is not a wrong value
+                            continue
                         r.check(False, 'no-exception', 'simple/raised/%s/%s,dim=%d' % (type(ex).__name__, tag, dim),
                                 exc=repr(ex), c=c[p], tc=tc)
                         continue
                     if not r.check(isinstance(out, tuple) and len(out) == 4, 'shape', 'simple/return-arity'):
                         continue
                     g_tc, g_val, g_err, g_tw = out
+                    if tdir == 'desc':
+                        r.count('simple-descending-target-answered', 1)
+                        g_tc, g_tw = np.asarray(g_tc)[::-1], np.asarray(g_tw)[::-1]
+                        g_val = np.asarray(g_val, float)[..., ::-1]
                     r.check(np.array_equal(np.asarray(g_tc, float), tc) and g_err is None and
                             core.close(g_tw, want_w if tw_arg is None else tw_arg, 1e-12), 'grid',
                             'simple/grid/width=%s' % wmode, got=g_tw, want=want_w)
